@@ -51,6 +51,70 @@ UCL = "naunet/reactions/uclchemreaction.py"
 KEEP = ("_create_species",)        # helpers the rules treat as primitives when a parser is read in its folded form (pymodel.folded)
 
 
+def _select_setattr(fn):
+    """`name = "a" if c else "b"` (or the same choice written as an if / else of two one-line arms) followed, in the same block and
+    with nothing re-binding `name` or evaluated in between that could change `c`'s operands, by the statement `setattr(obj, name, v)`
+    is `if c: obj.a = v else: obj.b = v` -- the attribute chosen by a test is the store chosen by that test.  Returns a rewritten
+    copy, or fn itself when nothing of the kind is in it."""
+    import copy
+
+    def const_tree(e):
+        if isinstance(e, ast.IfExp):
+            return const_tree(e.body) and const_tree(e.orelse)
+        return isinstance(e, ast.Constant) and isinstance(e.value, str) and e.value.isidentifier()
+
+    def as_choice(st):
+        """(name, expression) of `name = <tree of constants>` / `if c: name = "a" else: name = "b"`"""
+        if isinstance(st, ast.Assign) and len(st.targets) == 1 and isinstance(st.targets[0], ast.Name) and isinstance(st.value, ast.IfExp) and const_tree(st.value):
+            return st.targets[0].id, st.value
+        if isinstance(st, ast.If) and len(st.body) == 1 and len(st.orelse) == 1:
+            a, b = as_choice_arm(st.body[0]), as_choice_arm(st.orelse[0])
+            if a is not None and b is not None and a[0] == b[0]:
+                return a[0], ast.IfExp(test=st.test, body=a[1], orelse=b[1])
+        return None
+
+    def as_choice_arm(st):
+        if isinstance(st, ast.Assign) and len(st.targets) == 1 and isinstance(st.targets[0], ast.Name) and const_tree(st.value):
+            return st.targets[0].id, st.value
+        return as_choice(st)
+
+    def store_tree(e, obj, val, like):
+        if isinstance(e, ast.IfExp):
+            return ast.copy_location(ast.If(test=copy.deepcopy(e.test), body=[store_tree(e.body, obj, val, like)], orelse=[store_tree(e.orelse, obj, val, like)]), like)
+        return ast.copy_location(ast.Assign(targets=[ast.Attribute(value=copy.deepcopy(obj), attr=e.value, ctx=ast.Store())], value=copy.deepcopy(val)), like)
+    hit = [False]
+
+    def block(stmts):
+        out = list(stmts)
+        for st in out:
+            for fld in ("body", "orelse", "finalbody"):
+                b = getattr(st, fld, None)
+                if isinstance(b, list) and b and isinstance(b[0], ast.stmt) and not isinstance(st, (ast.FunctionDef, ast.ClassDef, ast.AsyncFunctionDef)):
+                    setattr(st, fld, block(b))
+        for i, st in enumerate(out):
+            ch = as_choice(st)
+            if ch is None:
+                continue
+            name, tree = ch
+            tested = {n.id for n in ast.walk(tree) if isinstance(n, ast.Name)}
+            for j in range(i + 1, len(out)):
+                nx = out[j]
+                c = nx.value if isinstance(nx, ast.Expr) else None
+                if isinstance(c, ast.Call) and isinstance(c.func, ast.Name) and c.func.id == "setattr" and len(c.args) == 3 and not c.keywords \
+                        and isinstance(c.args[1], ast.Name) and c.args[1].id == name and not any(isinstance(n, ast.Name) and n.id == name for a in (c.args[0], c.args[2]) for n in ast.walk(a)):
+                    out[j] = store_tree(tree, c.args[0], c.args[2], nx)
+                    hit[0] = True
+                    break
+                # between the choice and the setattr: plain assignments to other names that the tests do not read
+                if not (isinstance(nx, (ast.Assign, ast.AugAssign, ast.For)) and not ({n.id for n in ast.walk(nx) if isinstance(n, ast.Name) and isinstance(n.ctx, (ast.Store, ast.Del))} & (tested | {name}))
+                        and not any(isinstance(n, (ast.Return, ast.Raise, ast.Break, ast.Continue)) for n in ast.walk(nx))):
+                    break
+        return out
+    new = copy.deepcopy(fn)
+    new.body = block(new.body)
+    return ast.fix_missing_locations(new) if hit[0] else fn
+
+
 def _parser(pkg, cls, meth="_parse_string"):
     """The parser `cls.meth` in its folded form (pymodel.folded) with, in addition, the membership tests `x in TABLE` / `x not in TABLE`
     on a module-level literal table (normalize.module_tables: bound once, never re-bound or edited in its module) spelled with the
@@ -61,7 +125,7 @@ def _parser(pkg, cls, meth="_parse_string"):
     cache = pkg.__dict__.setdefault("_c06_parsers", {})
     if (cls, meth) in cache:
         return cache[(cls, meth)]
-    fn = pkg.folded(cls, meth, keep=KEEP)
+    fn = _select_setattr(pkg.folded(cls, meth, keep=KEEP))
     # a local bound ONCE, to a constant (the parameter of a helper that was put back: `attribute = "temp_min"`), is that constant
     # where it is read; setattr / getattr on it are then plain attribute accesses (fold_static)
     stores = {}
@@ -1263,6 +1327,24 @@ def _krome_window_stores(ctx, pkg, fn):
     if not stores:
         return None
     SELFP = ("param", "self")
+    # a store whose value is chosen by a condition (`self.temp_min = self._limit(value, self.temp_min)` with a helper that hands the
+    # default back for the no-bound spellings; `self.temp_min = float(..) if .. else self.temp_min`) is one store per leaf, on the path
+    # that chooses the leaf; storing the attribute's own current value is no store at all
+    import dataclasses
+    from ..valueflow import split_guard as _split
+
+    def _leaves(v, gs):
+        v = simp(v)
+        if v[0] in ("phi", "ifexp") and len(v) == 4:
+            return _leaves(v[2], gs + tuple(_split((simp(v[1]), True)))) + _leaves(v[3], gs + tuple(_split((simp(v[1]), False))))
+        return [(v, gs)]
+    split_stores = []
+    for f in stores:
+        for v_, gs_ in _leaves(f.value, ()):
+            if gs_ and v_ == ("attr", SELFP, f.target):
+                continue
+            split_stores.append(dataclasses.replace(f, value=v_, guards=tuple(f.guards) + gs_) if gs_ else f)
+    stores = split_stores
     decided = 0
     seen = set()
     for f in stores:
